@@ -161,11 +161,20 @@ def check(tier):
     doc = Dfa(ref["start"], docref.compress_edges(ref["trans"]))
     dlab = lambda q: ref["labels"].get(q)
     text_bad, ntext = [], 0
+    sweep = []
     for sp, _ in valid[: (6 if tier == "quick" else 20)]:
         positions = [m.start() for m in re.finditer(r"\s+", sp)] + [len(sp)]
         for pos in positions:
             for stray in (STRAY if tier != "quick" else rng.sample(STRAY, 7)):
-                text = sp[:pos] + " " + stray + " " + sp[pos:]
+                sweep.append(sp[:pos] + " " + stray + " " + sp[pos:])
+    # the very last character of the text, nothing after it: a stray character directly behind the last token, behind a blank, behind a
+    # line end - control characters that are no layout (form feed, vertical tab, SUB, DEL ...) included
+    for sp, _ in valid[: (5 if tier == "quick" else 20)]:
+        for last in ["\f", "\v", "\x1a", "\x01", "\x7f", "#", "\"", "/", "é", " \f", "\n\x1a", "\t\v", ";\f"]:
+            sweep.append(sp.rstrip() + last)
+    if True:
+        if True:
+            for text in sweep:
                 ntext += 1
                 r = hook.call({"op": "parse_trace", "mode": "parse", "text": text})
                 err = r.get("error") or {}
